@@ -328,7 +328,7 @@ def h_readheader():
                            (r'ReadOptionalUInt\((header\.\w+|arith_kind)\)', r'ReadOptionalUInt(&\1)', -1),
                            (r'ReadOptionalDouble\((tmp|header\.ampl_vbtol)\)', r'ReadOptionalDouble(&\1)', 2)],
                     defines={'header': '(*header_p)'},
-                    loops={0: '__CPROVER_assigns(i, ptr_, token_, __CPROVER_object_whole(header_p)) __CPROVER_loop_invariant(0 <= i && i <= header_p->num_ampl_options && '
+                    loops={0: '__CPROVER_assigns(i, ptr_, token_, header_p->ampl_options) __CPROVER_loop_invariant(0 <= i && i <= header_p->num_ampl_options && '
                               'header_p->num_ampl_options <= MAX_AMPL_OPTIONS && RD_LE) __CPROVER_decreases(header_p->num_ampl_options - i)'},
                     label='mp::internal::TextReader::ReadHeader', nmatches=1))
     parts.append('''
@@ -337,7 +337,7 @@ void harness(void) { vp_one = 1; vp_mkreader(); line_ = 1; NLHeader h;
   ReadHeader(&h); VP_REACH("normal return"); }
 ''')
     return Harness('C02.text.ReadHeader', 'C02', parts, enforce='ReadHeader', loop_contracts=True,
-                   expect_loop_obligations=1, timeout=900, object_bits=10,
+                   expect_loop_obligations=1, timeout=900, object_bits=10, backend='cadical',
                    note='whole function, modular over the contracts of the leaf readers')
 
 
@@ -515,6 +515,34 @@ int ReadUInt(unsigned ub) __CPROVER_requires(1) __CPROVER_ensures(__CPROVER_retu
                    stubs=['LinearHandler::AddTerm (asserts the index range, counts terms)'])
 
 
+def h_doreporterror():
+    """The located-error path: the backward scan for the start of the previous line stays inside the buffer, under the
+    precondition that the error location is not a newline sitting at the very first byte while a later line has started
+    (call-history fact: token_ is moved forward by SkipSpace / ReadChar before line_start_ can advance; assumed)."""
+    parts = [PRE, Fn(NLC, r'void mp::internal::TextReader<Locale>::DoReportError\(', 'void vp_DoReportError(const char *loc)',
+                     contract='__CPROVER_requires(RD_OBJ && __CPROVER_same_object(loc, start_) && __CPROVER_POINTER_OFFSET(loc) <= __CPROVER_POINTER_OFFSET(end_) && '
+                              '__CPROVER_same_object(line_start_, start_) && __CPROVER_POINTER_OFFSET(line_start_) <= __CPROVER_POINTER_OFFSET(end_) + 1 && '
+                              'line_ >= 1 && !(loc == start_ && *loc == \'\\n\' && loc < line_start_)) '
+                              '__CPROVER_ensures(0) __CPROVER_assigns()',
+                     subst=[(r'throw ReadError\(name_, line, column, format_str, args\);',
+                             '__CPROVER_assert(column >= 1, "reported column is positive"); VP_THROW(ReadError);', 1)],
+                     skip=('R6',),
+                     loops={0: '__CPROVER_assigns(line_start) __CPROVER_loop_invariant(__CPROVER_same_object(line_start, start_) && '
+                               '__CPROVER_POINTER_OFFSET(line_start) <= __CPROVER_POINTER_OFFSET(loc) && '
+                               '(*loc == \'\\n\' ==> __CPROVER_POINTER_OFFSET(line_start) < __CPROVER_POINTER_OFFSET(loc))) '
+                               '__CPROVER_decreases(__CPROVER_POINTER_OFFSET(line_start))'},
+                     label='mp::internal::TextReader::DoReportError', nmatches=1), '''
+void harness(void) { vp_one = 1; vp_mkreader(); size_t a = nondet_size_t(), b = nondet_size_t();
+  __CPROVER_assume(a <= (size_t)(end_ - start_) && b <= (size_t)(end_ - start_) + 1);
+  const char *loc = start_ + a; line_start_ = start_ + b; line_ = nondet_int(); __CPROVER_assume(line_ >= 1);
+  __CPROVER_assume(!(loc == start_ && *loc == '\\n' && loc < line_start_));
+  vp_DoReportError(loc); }
+''']
+    return Harness('C02.text.DoReportError', 'C02', parts, enforce='vp_DoReportError', loop_contracts=True, expect_loop_obligations=1,
+                   no_canary=True, assumptions=['DoReportError precondition: not (loc == start_ and *loc == newline and loc < line_start_) - a call-history fact, assumed'],
+                   note='always throws: no normal return, hence no end-of-harness canary; reachability is witnessed by the throw assertion')
+
+
 def h_stub(name):
     proto, contract = C[name]
     body = STUBS[name]
@@ -536,6 +564,7 @@ def harnesses(tier, seed):
     hs = [h_text(n) for n in DEPS]
     hs += [h_stub(n) for n in STUBS]
     hs.append(h_readheader())
+    hs.append(h_doreporterror())
     hs += [h_bin_read()] + [h_bin_int(n) for n in BIN] + [h_bin_uint(), h_bin_double(), h_bin_string(), h_convert()]
     hs += [h_nlr_uint1(), h_nlr_uint2(), h_nlr_numargs(), h_nlr_opcode(), h_nlr_linear()]
     return hs
